@@ -530,7 +530,16 @@ package gedcom
 //@   safety
 //@   assigns nothing
 //@ func parseLine
-//@   props C03 C02
+//@   props C03 C02 C01
+// C01/C02: the node is made from the captured groups as they are: the level
+// is the number in group 1, the tag is looked up by the text of group 3, the
+// value is group 4, and there is no pointer without group 2.
+//@   ghost lv int = 0
+//@   oncall strconv.Atoi check level-text: arg0 == parts[1]
+//@   oncall strconv.Atoi do lv = result0
+//@   oncall TagFromString check tag-text: arg0 == parts[3]
+//@   oncall newNode check value-text: arg3 == parts[4] && implies(parts[2] == "", arg4 == "")
+//@   ensures level-number: implies(isnil(result2), result1 == lv)
 //@   safety
 //@   requires document != nil
 //@   ensures node: implies(isnil(result2), result0 != nil && data(result0) != 0)
